@@ -14,6 +14,11 @@ def real_curves():
     return loader.module("ecdsa.curves").real
 
 
+def cf(curve, name):
+    """field of a Curve object: symbolic record in the engine, real attribute at run time"""
+    return curve.fields[name] if isinstance(curve, SObj) else getattr(curve, name)
+
+
 def mk_curve_z3(ex, name="curve"):
     """an arbitrary ecdsa.curves.Curve object: its fields satisfy what Curve.__init__ establishes"""
     order = ex.fresh_int("order")
@@ -29,15 +34,15 @@ def _(c):
     c.case("truncate", allow_truncate=Const(True))
     c.case("exact", allow_truncate=Const(False))
     c.requires(lambda digest: blen(digest) >= 1)
-    c.raises(BADDIGEST, only_if=lambda digest, curve, allow_truncate: And_(Not_(allow_truncate), blen(digest) > curve.fields["baselen"]))
+    c.raises(BADDIGEST, only_if=lambda digest, curve, allow_truncate: And_(Not_(allow_truncate), blen(digest) > cf(curve, "baselen")))
     c.returns(lambda ex: ex.fresh_int("e"))
     # e = the leftmost min(8*len(digest), bitlen(n)) bits of the digest as a big-endian integer
     c.ensures(lambda ex, digest, curve, allow_truncate, result:
-              eq(result, shr(be(digest), ex.name_int(imax(0, 8 * blen(digest) - bitlen(curve.fields["order"])), "drop"))) if allow_truncate is True
-              else And_(blen(digest) <= curve.fields["baselen"], eq(result, be(digest))), "leftmost-bits")
+              eq(result, shr(be(digest), ex.name_int(imax(0, 8 * blen(digest) - bitlen(cf(curve, "order"))), "drop") if ex is not None else imax(0, 8 * blen(digest) - bitlen(cf(curve, "order"))))) if allow_truncate is True
+              else And_(blen(digest) <= cf(curve, "baselen"), eq(result, be(digest))), "leftmost-bits")
     c.ensures(lambda result: result >= 0, "nonneg")
     c.functional = lambda digest, curve, allow_truncate: (
-        shr(be(digest), imax(0, 8 * blen(digest) - bitlen(curve.fields["order"]))) if allow_truncate is True else be(digest))
+        shr(be(digest), imax(0, 8 * blen(digest) - bitlen(cf(curve, "order")))) if allow_truncate is True else be(digest))
 
 
 def _trunc_domain(tier, seed):
@@ -402,3 +407,86 @@ def _(ex):
         ex.oblige_decided("lemma:C13.low_s_equivalent#same-verdict", a == b, "sympy", "verifies(r,s) = %r, verifies(r,n-s) = %r" % (a, b))
     finally:
         ex.field = None
+
+
+# ---- SigningKey.from_secret_exponent / generate (C03, C17) -----------------------------------------------------------
+MALPOINT = "ecdsa.keys.MalformedPointError"
+
+
+def _fse_setup(ex, F):
+    W = mk_key_world(ex, F)
+    secexp = F.atom("secexp", "free")
+    return {"cls": ex.convert(real_keys().SigningKey), "secexp": secexp, "curve": W["kcurve"], "hashfunc": None}
+
+
+def _fse_post(ex, F, env, out, snap):
+    W = F.world
+    x = env["secexp"]
+    inr = E.in_range_1_n(F, x)
+    if out[0] == "exc":
+        yield "MalformedPointError-iff-out-of-range", out[1] == MALPOINT and not inr and E.out_of_range(F, x), "raised %s at line %s" % (out[1], out[2])
+        return
+    sk = out[1]
+    ok = isinstance(sk, SObj) and sk.cls.qual.endswith("SigningKey")
+    yield "result-type", ok, "result %r" % (sk,)
+    if not ok:
+        return
+    yield "accepted-only-in-range", inr, "secret exponent accepted although 1 <= d <= n-1 is not known"
+    priv, vk = sk.fields.get("privkey"), sk.fields.get("verifying_key")
+    yield "secret-multiplier-stored", priv is not None and priv.fields.get("secret_multiplier") is x and priv.fields.get("order") is W["n"], "privkey fields"
+    pt = vk.fields["pubkey"].fields["point"] if vk is not None else None
+    from contracts.ellipticcurve import is_abstract
+    yield "public-key-is-dG", pt is not None and is_abstract(pt) and F.equal(pt.ghost["scalar"], x.res), "public point scalar %s" % (getattr(pt, "ghost", {}).get("scalar"),)
+    yield "key-fields", sk.fields.get("curve") is env["curve"] and vk.fields.get("curve") is env["curve"] and sk.fields.get("baselen") is env["curve"].fields["baselen"] \
+        and vk.fields["pubkey"].fields.get("order") is W["n"] and priv.fields["public_key"] is vk.fields["pubkey"], "curve / baselen / order fields"
+
+
+def _fse_apply(ex, F, vals, line):
+    W = F.world
+    x = vals["secexp"]
+    x = x if isinstance(x, FInt) else F.opaque(ex, x, "d")
+    if F.order(x, F.const(1), "<") or F.order(x, F.p, ">="):
+        raise PyRaise(MALPOINT, (), line)
+    curve = vals.get("curve", W["kcurve"])
+    G = curve.fields["generator"]
+    from contracts.ellipticcurve import mk_abstract
+    Q = mk_abstract(ex, F, G.ghost["scalar"] * x.res, like=G)
+    pub = SObj(ex.convert(E.real_ecdsa().Public_key), {"curve": curve.fields["curve"], "generator": G, "point": Q, "order": F.p})
+    priv = SObj(ex.convert(E.real_ecdsa().Private_key), {"public_key": pub, "secret_multiplier": x, "order": F.p})
+    vk = SObj(ex.convert(real_keys().VerifyingKey), {"curve": curve, "default_hashfunc": vals.get("hashfunc"), "pubkey": pub})
+    return SObj(ex.convert(real_keys().SigningKey), {"curve": curve, "default_hashfunc": vals.get("hashfunc"), "baselen": curve.fields["baselen"],
+                                                      "verifying_key": vk, "privkey": priv})
+
+
+kmethod("SigningKey", "from_secret_exponent", [("any-int", _fse_setup)], _fse_post, _fse_apply, props=("C03", "C09", "C17"))
+
+
+def _vk_fpp_apply(ex, F, vals, line):
+    """VerifyingKey.from_public_point as seen in scalar mode (point already in <G>): wraps the point"""
+    curve = vals["curve"]
+    pub = SObj(ex.convert(E.real_ecdsa().Public_key), {"curve": curve.fields["curve"], "generator": curve.fields["generator"], "point": vals["point"], "order": curve.fields["order"]})
+    return SObj(ex.convert(real_keys().VerifyingKey), {"curve": curve, "default_hashfunc": vals.get("hashfunc"), "pubkey": pub})
+
+
+_fpp = MethodContract(KEYS + "VerifyingKey.from_public_point", [], None, _vk_fpp_apply, props=("C08",))
+_fpp.applied_only = True
+_R[_fpp.qual] = _fpp
+
+
+def _gen_setup(ex, F):
+    W = mk_key_world(ex, F)
+    from contracts.util import mk_entropy
+    return {"cls": ex.convert(real_keys().SigningKey), "curve": W["kcurve"], "entropy": mk_entropy(ex), "hashfunc": None}
+
+
+def _gen_post(ex, F, env, out, snap):
+    if out[0] == "exc":
+        yield "no-escape", False, "raised %s at line %s" % (out[1], out[2])
+        return
+    sk = out[1]
+    ks = [a for name, a in F.atoms_by_name.items() if name.startswith("k_rand")]
+    ok = isinstance(sk, SObj) and len(ks) == 1 and sk.fields["privkey"].fields["secret_multiplier"] is ks[0]
+    yield "secret-is-the-one-randrange-draw-over-the-group-order", ok, "generated key does not hold the scalar drawn by randrange(order, entropy)"
+
+
+kmethod("SigningKey", "generate", [("entropy", _gen_setup)], _gen_post, None, props=("C17",))
